@@ -44,7 +44,8 @@ Ctx(s) == IF s \in CorsOther THEN {<<"all", "env", "false">>} ELSE {}
 
 \* renderings of the same file content (all of them TOML): "tight" has no blanks around '=', comments glued to values and
 \* to the table header, a tab before a comment, an indented full-line comment and CRLF line endings
-Styles == {"plain", "comments_quotes", "reordered_spaces", "tight"}
+\* "no_final_newline": the plain rendering whose last line has no terminator
+Styles == {"plain", "comments_quotes", "reordered_spaces", "tight", "no_final_newline"}
 
 GInit ==
     \/ \E s \in Setting, S \in SUBSET Srcs : \E a \in Assignments(s, S) : \E st \in Styles :
